@@ -11,6 +11,9 @@
 #include <etl/vector.hpp>
 
 #include <algorithm>
+#include <climits>
+#include <cstdint>
+#include <limits>
 #include <unistd.h>
 #include <memory>
 #include <new>
@@ -49,8 +52,36 @@ struct NT {
 };
 static_assert(!std::is_trivial_v<NT> && !etl::is_trivial_v<NT>);
 
+// A handle: move construction and move assignment transfer the value and empty the source; the move assignment
+// has no self test, so `x = std::move(x)` empties x.  A container algorithm that move-assigns an element to itself
+// without need (std::erase_if never does: it runs find_if first) becomes visible through this type.
+static constexpr long long EMPTIED = 9998;
+struct HD {
+    long long v;
+    HD() noexcept : v(0) { }
+    HD(int x) noexcept : v(x) { } // NOLINT
+    HD(HD const& o) noexcept : v(o.v) { }
+    HD(HD&& o) noexcept : v(o.v) { o.v = EMPTIED; }
+    auto operator=(HD const& o) noexcept -> HD&
+    {
+        v = o.v;
+        return *this;
+    }
+    auto operator=(HD&& o) noexcept -> HD&
+    {
+        v   = o.v;
+        o.v = EMPTIED;
+        return *this;
+    }
+    ~HD() noexcept { *const_cast<long long volatile*>(&v) = DEAD; }
+    friend auto operator==(HD const& a, HD const& b) noexcept -> bool { return a.v == b.v; }
+    friend auto operator<(HD const& a, HD const& b) noexcept -> bool { return a.v < b.v; }
+};
+static_assert(!std::is_trivial_v<HD> && !etl::is_trivial_v<HD>);
+
 static auto val(int x) -> long long { return x; }
 static auto val(NT const& x) -> long long { return x.v; }
+static auto val(HD const& x) -> long long { return x.v; }
 
 template <typename E>
 static auto mk(long long x) -> E
@@ -249,6 +280,12 @@ static auto dump_seq(C& c) -> std::string
     if constexpr (is_etl_sv<C>::value) {
         full = cc.full();
         if (cc.capacity() != Cap || cc.max_size() != Cap) flags += "@cap";
+        // the elements live inside the object itself: a copy can never share storage with its source
+        if (n != 0) {
+            auto const* lo = reinterpret_cast<unsigned char const*>(&cc);
+            auto const* p  = reinterpret_cast<unsigned char const*>(cc.data());
+            if (p < lo || p + Cap * sizeof(*cc.data()) > lo + sizeof(C)) flags += "@inl";
+        }
     } else {
         full = cc.size() == Cap;
     }
@@ -572,6 +609,11 @@ struct IpvRunner final : Runner {
             if (val(cc[i]) != d[i] || val(c[i]) != d[i]) flags += "@idx";
         if (V::capacity() != Cap || V::max_size() != Cap) flags += "@cap";
         if (cc.data() != cc.begin()) flags += "@data";
+        if (n != 0) {
+            auto const* lo = reinterpret_cast<unsigned char const*>(&cc);
+            auto const* p  = reinterpret_cast<unsigned char const*>(cc.data());
+            if (p < lo || p + Cap * sizeof(E) > lo + sizeof(V)) flags += "@inl";
+        }
         std::string fb = "-";
         if (n != 0) {
             fb = std::to_string(val(cc.front())) + "/" + std::to_string(val(cc.back()));
@@ -817,6 +859,41 @@ static auto api_member(Line const& l, bool ipv) -> std::string
     return "has=" + std::to_string(a) + "\thas=" + std::to_string(b);
 }
 
+// "smallest unsigned integer type that can represent values in the range [0, N]", from the limits of the fixed-width types
+template <unsigned long long N>
+static constexpr auto min_bits() -> int
+{
+    if (N <= std::numeric_limits<std::uint8_t>::max()) return 8;
+    if (N <= std::numeric_limits<std::uint16_t>::max()) return 16;
+    if (N <= std::numeric_limits<std::uint32_t>::max()) return 32;
+    return 64;
+}
+
+// `api_width cap=N`: smallest_size_t<N> alone, also for N far beyond any container the harness instantiates
+#define C01_WIDTHS(X)                                                                                                  \
+    X(0ULL) X(1ULL) X(254ULL) X(255ULL) X(256ULL) X(65534ULL) X(65535ULL) X(65536ULL) X(4294967294ULL) X(4294967295ULL)      \
+    X(4294967296ULL) X(9223372036854775807ULL)
+static auto api_width(Line const& l) -> std::string
+{
+    auto cap = static_cast<unsigned long long>(l.i("cap"));
+#define X(N)                                                                                                           \
+    if (cap == (N))                                                                                                    \
+        return "bits=" + std::to_string(sizeof(etl::smallest_size_t<N>) * CHAR_BIT) + "\tbits="                        \
+             + std::to_string(min_bits<N>());
+    C01_WIDTHS(X)
+#undef X
+    return "bad-op\tbad-op";
+}
+
+// `api_abi`: the widths of the types the size-type chain names (the model's table CTy.bits)
+static auto api_abi() -> std::string
+{
+    auto b = [](std::size_t n) { return std::to_string(n * CHAR_BIT); };
+    auto s = "uchar=" + b(sizeof(unsigned char)) + " ushort=" + b(sizeof(unsigned short)) + " uint=" + b(sizeof(unsigned int))
+           + " ulong=" + b(sizeof(unsigned long)) + " ulonglong=" + b(sizeof(unsigned long long));
+    return s + "\t" + s;
+}
+
 template <typename V, typename R, std::size_t Cap>
 static auto api(Line const& l) -> std::string
 {
@@ -825,8 +902,8 @@ static auto api(Line const& l) -> std::string
         return api_member<V, R, E>(l, std::is_same_v<V, etl::inplace_vector<E, Cap>>);
     }
     if (l.op == "api_bits") {
-        auto s = "bits=" + std::to_string(sizeof(etl::smallest_size_t<Cap>) * 8);
-        return s + "\t" + s;
+        return "bits=" + std::to_string(sizeof(etl::smallest_size_t<Cap>) * CHAR_BIT) + "\tbits="
+             + std::to_string(min_bits<Cap>());
     }
     auto f = [](bool c, bool m) {
         return std::string("copy_assign=") + proto::fmt_bool(c) + " move_assign=" + proto::fmt_bool(m);
@@ -869,6 +946,23 @@ static auto make(std::string const& ty, std::size_t cap, bool value_init) -> std
     return nullptr;
 }
 
+// the handle kind: static_vector only (the remove_if / erase / rotate based members), small capacities
+#ifndef C01_HD_CAPS
+    #define C01_HD_CAPS(X) X(0) X(1) X(2) X(3) X(4) X(7)
+#endif
+static auto make_hd(std::string const& ty, std::size_t cap, bool value_init) -> std::unique_ptr<Runner>
+{
+    if (ty != "sv") return nullptr;
+#define X(N)                                                                                                           \
+    if (cap == (N)) {                                                                                                  \
+        Slot<etl::static_vector<HD, N>>::value_init = value_init;                                                      \
+        return std::make_unique<SvRunner<HD, N>>();                                                                    \
+    }
+    C01_HD_CAPS(X)
+#undef X
+    return nullptr;
+}
+
 template <typename E>
 static auto api_for(Line const& l, std::string const& ty, std::size_t cap) -> std::string
 {
@@ -890,14 +984,20 @@ static auto step(Line const& l) -> std::string
     // size) ends the process; check.py reports the line as a crash instead of hanging.  Wall-clock seconds:
     // generous, the machine may be heavily loaded
     alarm(20);
+    if (l.op == "api_width") return api_width(l);
+    if (l.op == "api_abi") return api_abi();
     if (l.op == "new" || l.op == "api_bits" || l.op == "api_assign" || l.op == "api_member") {
         auto ty   = l.str("ty");
         auto cap  = static_cast<std::size_t>(l.i("cap"));
         auto kind = l.str("kind");
-        if (l.op != "new") return kind == "nt" ? api_for<NT>(l, ty, cap) : api_for<int>(l, ty, cap);
+        if (kind != "int" && kind != "nt" && kind != "hd") return "bad-op\tbad-op";
+        if (l.op != "new") {
+            if (kind == "hd") return "bad-op\tbad-op";
+            return kind == "nt" ? api_for<NT>(l, ty, cap) : api_for<int>(l, ty, cap);
+        }
         g_runner.reset();
         bool vi  = l.has("init") ? l.str("init") == "value" : true;
-        g_runner = kind == "nt" ? make<NT>(ty, cap, vi) : make<int>(ty, cap, vi);
+        g_runner = kind == "hd" ? make_hd(ty, cap, vi) : kind == "nt" ? make<NT>(ty, cap, vi) : make<int>(ty, cap, vi);
         if (!g_runner) return "bad-op\tbad-op";
         Line d;
         d.op   = "dump";
